@@ -101,3 +101,12 @@ CLAIMED["C02"] = (
     "Trusted: primitives as uninterpreted functions (A-crypto-fun); 'tampering is detected' rests on them (A-crypto-sec, not claimed); A-enc, A-smt. "
     "Mbi_ExportMixinRsaSign/EccSign.sign, finalize (HMAC/key-store splice), post_encrypt, manifest mixins and CertBlockV1 are not under contract.",
     "DESIGN.md 7 C02")
+CLAIMED["C03"] = (
+    "RKHT._calc_key_hash equals the documented construction over the raw key material for RSA-2048/3072 (minimal-length modulus and exponent "
+    "65537) and P-256/P-384 (fixed coordinate width, so leading-zero coordinates keep their bytes) for all key numbers; RKHTv1.export/rkth (four "
+    "slots in key order, missing slots zero, SHA-256 of the table) for 1..4 keys and RKHTv21.rkth (single hash, or hash of the concatenation) "
+    "are discharged. Since each path's result is proved equal to a spec term that mentions only the ordered key numbers, independence from the "
+    "signer and agreement between these paths follow. Certificate blocks, PFR ROTKH, DAT RoT meta, AHAB/HAB SRK tables are not under contract "
+    "here (bounded / other properties); key parsing from PEM/DER/certificates is external (A-pki; bounded agreement check).",
+    "Trusted: hashes as uninterpreted functions, A-pki (cryptography's key parsing), A-enc, A-smt, A-struct.",
+    "DESIGN.md 7 C03")
